@@ -6,6 +6,8 @@ import Gemato.Model.VerifyDir
 import Gemato.Model.FindTop
 import Gemato.Model.Profile
 import Gemato.Model.Save
+import Gemato.Model.Cli
+import Gemato.Model.Faults
 /-
   Line-protocol driver: one JSON request per input line, one JSON reply per
   output line. Strings travel as arrays of code points.
@@ -174,6 +176,7 @@ partial def getNode (j : Json) : Except String L1.Node := do
   let k ← (a[0]!).getStr?
   match k with
   | "x" => pure .dangling
+  | "u" => pure (.unreadable (← (a[1]!).getNat?) (← (a[2]!).getBool?))
   | "s" => pure (.special (← (a[1]!).getNat?))
   | "d" =>
     let kids ← (← (a[3]!).getArr?).toList.mapM fun kv => do
@@ -206,6 +209,10 @@ def jErr : L1.Err → Json
   | .syntax => Json.mkObj [("err", "syntax")]
   | .unsigned => Json.mkObj [("err", "unsigned")]
   | .unsupportedHash => Json.mkObj [("err", "unsupportedhash")]
+  | .os (.code 2) => Json.mkObj [("err", "os:Gemato.L1.Errno.ENOENT")]
+  | .os (.code 20) => Json.mkObj [("err", "os:Gemato.L1.Errno.ENOTDIR")]
+  | .os (.code 21) => Json.mkObj [("err", "os:Gemato.L1.Errno.EISDIR")]
+  | .os (.code k) => Json.mkObj [("err", Json.str s!"os:code:{k}")]
   | .os e => Json.mkObj [("err", Json.str s!"os:{repr e}")]
   | .compress => Json.mkObj [("err", "compress")]
   | .internal k => Json.mkObj [("err", Json.str (match k with
@@ -381,20 +388,7 @@ def opUpdate (req : Json) : Except String Json := do
       let n (i : Nat) : Except String Nat := (f[i]!).getNat?
       pure (some (⟨← n 0, ← n 1, ← n 2, ← n 3, ← n 4, ← n 5⟩, ← (a[1]!).getBool?))
     | .error _ => pure none)
-  let r : Except L1.Err (U.St × List U.Write) := do
-    let s ← U.openForUpdate w top create prof xdev
-    let s1 ← U.updateDir w s path { hashes := hashes, profile := prof, lastMtime := lm }
-    -- the CLI's TIMESTAMP refresh between scan and save: `ts.ts = start_ts` on the first TIMESTAMP entry
-    -- found (deepest Manifest for '' first), or `set_timestamp` appending one to the top-level Manifest
-    let s2 : U.St := match setTs with
-      | none => s1
-      | some (ts, addIfMissing) =>
-        let found := ((L1.iterManifests s1.plain [] false).flatMap fun (k, _, _) =>
-          (s1.entriesOf k).filter fun ie => match ie.2 with | .timestamp _ => true | _ => false).head?
-        match found with
-        | some (id, _) => s1.setVal id (.timestamp ts)
-        | none => if addIfMissing then s1.append s1.top (.timestamp ts) else s1
-    if doSave then U.saveAll w post s2 so else pure (s2, [])
+  let r := Cli.updateCommand w post top path create prof xdev { hashes := hashes, profile := prof, lastMtime := lm } setTs so doSave
   pure (Json.mkObj [("model", match r with
     | .error e => jErr e
     | .ok (s, ws) => Json.mkObj [
@@ -402,6 +396,60 @@ def opUpdate (req : Json) : Except String Json := do
         ("top", jStr s.top),
         ("updated", Json.arr (s.updated.toArray.map jStr)),
         ("loaded", Json.arr (s.loaded.toArray.map fun (k, _) => Json.arr #[jStr k, Json.arr ((s.entriesOf k).toArray.map fun ie => jEntry ie.2)]))])])
+
+-- call-level model (C06) -------------------------------------------------------------------
+def getOutcome {α : Type} (j : Json) (f : Json → Except String α) : Except String (Except Nat α) :=
+  match j.getObjVal? "err" with
+  | .ok e => do pure (.error (← e.getNat?))
+  | .error _ => do pure (.ok (← f (← j.getObjVal? "ok")))
+
+def getSt (j : Json) : Except String Faults.St := do
+  let a ← j.getArr?
+  pure { kind := if (← (a[0]!).getStr?) == "r" then .reg else .nonreg, dev := ← (a[1]!).getNat?,
+         size := ← (a[2]!).getNat?, mtime := ← (a[3]!).getInt? }
+
+def getCalls (j : Json) : Except String Faults.Calls := do
+  let rd (x : Json) : Except String (Nat × List (Str × Str)) := do
+    let a ← x.getArr?
+    let dig ← (← (a[1]!).getArr?).toList.mapM fun kv => do
+      let p ← kv.getArr?
+      pure ((← getStr p[0]!), (← getStr p[1]!))
+    pure ((← (a[0]!).getNat?), dig)
+  pure { open_ := ← getOutcome (← j.getObjVal? "open") (fun _ => pure ()),
+         fstat := ← getOutcome (← j.getObjVal? "fstat") getSt,
+         stat := ← getOutcome (← j.getObjVal? "stat") getSt,
+         fdopen := ← getOutcome (← j.getObjVal? "fdopen") (fun _ => pure ()),
+         read := ← getOutcome (← j.getObjVal? "read") rd,
+         badHash := ← (← j.getObjVal? "bad_hash").getBool? }
+
+def jCall : Faults.Call → Json
+  | .open_ => "open" | .fstat => "fstat" | .stat => "stat" | .fdopen => "fdopen" | .read => "read" | .close => "close"
+
+/-- verify_calls: {calls, entry|null, dev|null, last_mtime|null, update: bool} -/
+def opVerifyCalls (req : Json) : Except String Json := do
+  let c ← getCalls (← req.getObjVal? "calls")
+  let e ← (match req.getObjVal? "entry" with
+    | .ok Json.null => pure none
+    | .ok j => (getEntry j).map some
+    | .error _ => pure none)
+  let dev ← (match req.getObjVal? "dev" with | .ok Json.null => pure none | .ok j => (j.getNat?).map some | .error _ => pure none)
+  let lm ← getOptInt req "last_mtime"
+  let upd ← (← req.getObjVal? "update").getBool?
+  if upd then
+    match e with
+    | none => .error "update needs an entry"
+    | some e =>
+      let (r, tr) := Faults.updateEntryC c e dev lm
+      pure (Json.mkObj [("trace", Json.arr (tr.toArray.map jCall)), ("model", match r with
+        | .error err => jErr err
+        | .ok none => Json.mkObj [("changed", Json.bool false)]
+        | .ok (some (n, cks)) => Json.mkObj [("changed", Json.bool true), ("size", jNat n),
+            ("cks", Json.arr (cks.toArray.map fun (a, b) => Json.arr #[jStr a, jStr b]))])])
+  else
+    let (r, tr) := Faults.verifyPathC c e dev lm
+    pure (Json.mkObj [("trace", Json.arr (tr.toArray.map jCall)), ("model", match r with
+      | .error err => jErr err
+      | .ok b => Json.mkObj [("ret", Json.bool b)])])
 
 def dispatch (req : Json) : Except String Json := do
   let op ← (← req.getObjVal? "op").getStr?
@@ -419,6 +467,7 @@ def dispatch (req : Json) : Except String Json := do
   | "find_top" => opFindTop req
   | "profile_fn" => opProfileFn req
   | "update" => opUpdate req
+  | "verify_calls" => opVerifyCalls req
   | _ => .error s!"unknown op {op}"
 
 end Drv
